@@ -41,9 +41,9 @@ contract('info.ValueInfo.convert', params={'datatype': 'Fun[dt]'}, returns='Opaq
 model('info.BaseInfo',
       fields={'name': 'Opt[str]', 'datatype': 'Opt[Fun[dt]]', 'minOccurs': 'int', 'maxOccurs': 'MaxOcc',
               'handler': 'Opt[str]', 'attribute': 'Opt[str]'})
-model('InfoLike', fields={}, external=True)
+model('InfoLike', fields={}, external=True, abstract=True)
 model('info.SectionInfo', fields={'sectiontype': 'Ref[TypeLike]'}, bases=['InfoLike'])
-model('TypeLike', fields={'name': 'Opt[str]'}, external=True)        # SectionType | AbstractType
+model('TypeLike', fields={'name': 'Opt[str]'}, external=True, abstract=True)        # SectionType | AbstractType
 model('info.AbstractType', fields={'_subtypes': 'Map[str, Ref[info.SectionType]]', 'description': 'Opt[str]'},
       bases=['TypeLike'])
 
@@ -70,6 +70,7 @@ model('info.SectionType',
       bases=['TypeLike', 'InfoLike'],
       invariant=[Clause('forall(lambda i: implies(0 <= i and i < len(self._children), '
                         'child_wf(self._children[i][0], self._children[i][1])))', label='RI-children-well-formed'),
+                 Clause('self.datatype is not None', label='RI-has-a-section-datatype'),
                  Clause('forall(lambda i, j: implies(0 <= i and i < j and j < len(self._children), '
                         'self._children[i][1].attribute != self._children[j][1].attribute))',
                         label='RI-attributes-distinct')])
